@@ -113,6 +113,11 @@ func equalAtPrecision(got, want cty.Value) bool {
 func checkTokens(v cty.Value, unspecNum bool) (sig string, f *failure, unspec bool) {
 	toks := hclwrite.TokensForValue(v)
 	src := toks.Bytes()
+	// generating again (and generating something else in between) must not change what was returned
+	_ = hclwrite.TokensForValue(cty.StringVal("zz${"))
+	if again := hclwrite.TokensForValue(v).Bytes(); string(again) != string(src) || string(toks.Bytes()) != string(src) {
+		return "", &failure{"regenerate-differs", fmt.Sprintf("TokensForValue(%s) gives %s the first time and %s the second time (first result now %s)", vfmt.V(v), clip(src), clip(again), clip(toks.Bytes()))}, false
+	}
 	expr, diags := hclsyntax.ParseExpression(src, "gen.hcl", hcl.InitialPos)
 	if diags.HasErrors() {
 		return "", &failure{"parse-error", fmt.Sprintf("TokensForValue(%s) = %s does not parse as an expression: %s", vfmt.V(v), clip(src), diags.Error())}, false
